@@ -39,6 +39,7 @@ type FuncContract struct {
 	CallPre    map[string][]*Clause // obligations on the arguments of calls made by this function, keyed by callee
 	DynMod     []*Clause            // assumed frame of dynamic calls in this function
 	HasDynMod  bool
+	AtUnlock   []*Clause // assertions checked at every Unlock of the function (may mention locals and atlock())
 	Checks     []*Clause // internal postconditions (may mention locals; not exported to callers)
 	Functional bool
 	Modifies   []*Clause
@@ -105,7 +106,7 @@ func newContracts() *Contracts {
 	return &Contracts{Funcs: map[string]*FuncContract{}, Specs: map[string]*SpecFunc{}, Decls: map[string][]string{}}
 }
 
-var keywordRe = regexp.MustCompile(`^(func|requires|ensures_on_panic|ensures|check|functional|closeonce|callpre|dyncall|ghost|modifies|pure|trusted|strict|mathint|maypanic|nobody|loop|param|spec|axiom|lemma|monitor|allocbound|decl)\b`)
+var keywordRe = regexp.MustCompile(`^(func|requires|ensures_on_panic|ensures|check|functional|closeonce|callpre|dyncall|ghost|atunlock|modifies|pure|trusted|strict|mathint|maypanic|nobody|loop|param|spec|axiom|lemma|monitor|allocbound|decl)\b`)
 
 // preprocess rewrites `A ==> B` into implies(A, B) (lowest precedence within its paren group)
 // and `A <==> B` into iff(A, B).
@@ -326,6 +327,14 @@ func (cs *Contracts) parseContractFile(path string, content []byte, pkgName stri
 						cur.DynMod = append(cur.DynMod, c)
 					}
 				}
+			}
+		case "atunlock":
+			if cur == nil {
+				fail(it.line, "atunlock outside func")
+				continue
+			}
+			if c := mk(rest, it.line); c != nil {
+				cur.AtUnlock = append(cur.AtUnlock, c)
 			}
 		case "check":
 			if cur == nil {
